@@ -1,7 +1,7 @@
 #!/bin/bash
 # usage: seed_store.sh <prop> <A|B> "<needs>"   -- keep a confirmed mutant under /verif/seeded/<prop>-<M>/
 # P: worktree name (C02 or C02r2); M: A|B; optional 4th arg: letter to store under (C, D for round 2)
-W=$1; M=$2; NEEDS=$3; L=${4:-$M}; P=${W%r2}; OUT=/tmp/wt/$W/OUT; D=/verif/seeded/$P-$L
+W=$1; M=$2; NEEDS=$3; L=${4:-$M}; P=${W%r[0-9]}; OUT=/tmp/wt/$W/OUT; D=/verif/seeded/$P-$L
 mkdir -p $D
 cp $OUT/mut$M.diff $D/patch.diff
 cp $OUT/demo${M}_test.go $D/demo_test.go
